@@ -23,6 +23,9 @@ Proof.
   destruct (h' =? h) eqn:E; [apply Z.eqb_eq in E; congruence|reflexivity].
 Qed.
 Print Assumptions within_fragment_duplicate_rejected.
+(* hypotheses satisfiable: id 11 of the three-element fragment GraphP.d_frag is owned by element 2, not by 9 *)
+Example within_fragment_duplicate_rejected_hyps_sat : 2 <> 9 /\ get 11 (idc (fidx d_frag)) = Some (Some 2).
+Proof. split; [discriminate|reflexivity]. Qed.
 
 (* 2. generated ids are used nowhere in any loaded fragment; a requested free id is honoured;
       a requested id that is in use is refused *)
@@ -30,10 +33,17 @@ Theorem generated_uuid_is_fresh : forall frs want stream u, FragsOK frs ->
   generate_uuid frs want stream = ROk u -> scan_uuid frs u = [] /\ (forall w, want = Some w -> u = w).
 Proof. exact generate_uuid_fresh. Qed.
 Print Assumptions generated_uuid_is_fresh.
+(* hypotheses satisfiable on a two-fragment forest: the first two candidates of the stream are in use (one in each
+   fragment), the third is returned; a requested free id is returned *)
+Example generated_uuid_is_fresh_hyps_sat :
+  FragsOK d_forest /\ generate_uuid d_forest None [10; 21; 77; 78] = ROk 77 /\ generate_uuid d_forest (Some 55) [] = ROk 55.
+Proof. split; [exact d_forest_ok|split; reflexivity]. Qed.
 Theorem in_use_uuid_refused : forall frs w stream h, FragsOK frs -> In h (scan_uuid frs w) ->
   generate_uuid frs (Some w) stream = RErr E_ValueError.
 Proof. exact want_in_use_fails. Qed.
 Print Assumptions in_use_uuid_refused.
+Example in_use_uuid_refused_hyps_sat : FragsOK d_forest /\ In 7 (scan_uuid d_forest 21).
+Proof. split; [exact d_forest_ok|now left]. Qed.
 
 (* 3. a creation = reserve; attach + index.  Undoing it by the paired detach restores exact
       indexes; undoing it by a bare tree removal (what ModelElement.__init__'s handler does for
@@ -47,6 +57,8 @@ Theorem paired_undo_restores : forall fr f hs, FragOK fr -> f = fname fr ->
   exists fr', step_frag false fr (Detach f hs) = ROk fr' /\ FragOK fr' /\ fnodes fr' = without hs (fnodes fr).
 Proof. exact detach_preserves. Qed.
 Print Assumptions paired_undo_restores.
+Example paired_undo_restores_hyps_sat : FragOK d_frag /\ 0 = fname d_frag /\ length (without [2; 3] (fnodes d_frag)) = 1%nat.
+Proof. split; [exact d_frag_ok|split; reflexivity]. Qed.
 
 (* 4. a creation that fails after ANY number j of nested objects were already created (and indexed) — the
       sequence the code performs: reserve the id, attach+index the nested objects, then on failure un-index them,
@@ -66,6 +78,31 @@ Theorem failed_creation_leaves_no_trace : forall fr rq j,
     (forall k, lk_id fr' k = lk_id fr k) /\ (forall k, lk_xt fr' k = lk_xt fr k) /\ (forall k, lk_hr fr' k = lk_hr fr k).
 Proof. exact failed_create_restores. Qed.
 Print Assumptions failed_creation_leaves_no_trace.
+(* all nine hypotheses hold together: a request against the three-element fragment GraphP.d_frag with three nested
+   objects, failing after two of them were created *)
+Definition ex_rq : request :=
+  mkReq 0 900 (mkNode 50 (Some 2) (Some 100) [900] [900] None)
+        [mkNode 51 (Some 50) (Some 101) [901] [901] None; mkNode 52 (Some 50) (Some 101) [902] [902] None;
+         mkNode 53 (Some 50) None [903] [903] None].
+Example failed_creation_leaves_no_trace_hyps_sat :
+  let fr := d_frag in let rq := ex_rq in let j := 2%nat in
+  let done := firstn j (r_nested rq) in
+  length done = 2%nat /\
+  fname fr = r_frag rq /\
+  lk_id fr (r_uuid rq) = None /\
+  Forall plain done /\ NoDup (ids_of_nodes done) /\ ~ In (r_uuid rq) (ids_of_nodes done) /\
+  (forall u, In u (ids_of_nodes done) -> lk_id fr u = None) /\
+  NoDup (map nh done) /\ (forall n, In n (fnodes fr) -> ~ In (nh n) (map nh done)) /\
+  (forall n, In n done -> lk_xt fr (nh n) = None).
+Proof.
+  cbv zeta. split; [reflexivity|]. split; [reflexivity|]. split; [reflexivity|].
+  split; [repeat (apply Forall_cons; [split; reflexivity|]); apply Forall_nil|].
+  split; [nodup_concrete|]. split; [cbn; intuition discriminate|].
+  split; [intros u [<-|[<-|[]]]; reflexivity|].
+  split; [nodup_concrete|].
+  split; [intros n [<-|[<-|[<-|[]]]]; cbn; intuition discriminate|].
+  intros n [<-|[<-|[]]]; reflexivity.
+Qed.
 
 (* the hypotheses are satisfiable, and the handler found before the fix (bare tree removal) leaves the nested id indexed *)
 Example failed_creation_instance :
